@@ -185,6 +185,15 @@ pub fn launch(
         .stack_size(STACK_SIZE)
         .spawn(move || {
             sim_entropy::install(&plan);
+            // Layout seam, in-process side: displace this thread's heap for the duration of the
+            // launch by the amount the plan chose.
+            let displacement: Vec<u8> = Vec::with_capacity(plan.skew_heap as usize);
+            std::hint::black_box(&displacement);
+            // "repeated calls": earlier runs on the same thread advance the thread's RandomState
+            // counter and warm any process-wide state; only the last run is observed.
+            for _ in 0..plan.repeat {
+                let _ = run_stub(&path, &source, step_budget);
+            }
             let obs = run_stub(&path, &source, step_budget);
             // Reach probe, after the launch so that it cannot disturb it: the iteration orders the
             // thread's next RandomStates induce on {0..n}, n = 2..=6.
@@ -194,6 +203,7 @@ pub fn launch(
                     set.into_iter().collect::<Vec<usize>>()
                 })
                 .collect();
+            drop(displacement);
             (obs, sim_entropy::take_log(), orders)
         })
         .map_err(|e| format!("spawn failed: {e}"))?;
